@@ -98,7 +98,8 @@ func (sfc *StructFieldsCopy) createFieldSnippet(f *types.Var) snippet.Snippet {
 			}
 		}
 
-		if fc.InSamePkg {
+		// no methods are generated for interfaces, they are copied by assignment
+		if _, isInterface := x.Underlying().(*types.Interface); fc.InSamePkg && !isInterface {
 			if sfc.OnLocalDep != nil {
 				sfc.OnLocalDep(x)
 			}
